@@ -352,6 +352,14 @@ def lists(tier="quick", lens=range(1, 10)):
                             src = f"arr = {arr}\nwhile True:\n    k = d0.Setting\n    db.Setting = arr[k]\n    yield_()\n"
                     out.append(mk("LIST", n, src, ln=ln, V=V, K=12, T=2, cap=256))
                     n += 1
+            # the looked-up value bound to a plain name that is read more than once, next to the index
+            for ctx, src in (
+                ("main-var", f"arr = {arr}\nk = d0.Setting\nv = arr[k]\ndb.Setting = v\ndb.On = v + k\n"),
+                ("func-var", f"def f(k):\n    arr = {arr}\n    v = arr[k]\n    db.Setting = v\n    return v + k\nwhile True:\n    db.On = f(d0.Setting)\n    db.Mode = f(d1.Setting)\n    yield_()\n"),
+                ("loop-var", f"arr = {arr}\nn = 0\nwhile n < {ln}:\n    v = arr[n]\n    w = arr[{ln - 1} - n]\n    db.Setting = v\n    db.On = w + v + n\n    n += 1\n"),
+            ):
+                out.append(mk("LIST", n, src, ln=ln, V=V, K=12, T=2, cap=256))
+                n += 1
     return out
 
 
@@ -496,6 +504,42 @@ def names_pairs():
     return out
 
 
+CLASH_NAMES = ["pump", "Setting", "On", "Mode", "Sum", "Average", "Maximum", "Occupied", "Charge", "Quantity"]
+
+
+def names_clash():
+    """A function whose name is also the text of something that is not a label: a device name string, a word inside a device
+    name, a hashed string, a logic type, a slot type, a batch method, a word of the original-code comment."""
+    LT = {"Setting", "On", "Mode", "Charge", "Maximum", "Quantity"}
+    ST = {"Occupied", "Quantity", "Charge"}
+    BM = {"Sum", "Average", "Maximum"}
+    out = []
+    n = 0
+    for nm in CLASH_NAMES:
+        uses = {
+            "devname": f'Batteries["{nm}"].On = p\n',
+            "devname-word": f'Batteries["my {nm} x"].On = p\n',
+            "hash": f'db.Setting = HASH("{nm}") + p\n',
+            "hash-alone": f'hv = HASH("{nm}")\nBatteries[hv].Lock = p\n',
+        }
+        if nm in LT:
+            uses["logic-store"] = f"d1.{nm} = p\n"
+            uses["logic-load"] = f"db.Setting = d1.{nm} + p\n"
+            uses["logic-batch"] = f"Batteries.{nm} = p\ndb.Setting = Batteries.{nm}.Sum\n"
+        if nm in ST:
+            uses["slot-load"] = f"db.Setting = d1.slot0.{nm} + p\n"
+        if nm in BM:
+            uses["batch-method"] = f"db.Setting = Batteries.Charge.{nm} + p\n"
+        for un, use in uses.items():
+            for where in ("in-function", "in-main", "both"):
+                body = ind(use) if where != "in-main" else ""
+                main = ind(use.replace(" p\n", " 2\n").replace("+ p", "+ 2")) if where != "in-function" else ""
+                src = f"def {nm}(p):\n    db.On = p\n{body}    return p + 1\nwhile True:\n    db.Mode = {nm}(d0.Setting)\n{main}    db.Mode = {nm}(3)\n    yield_()\n"
+                out.append(mk("NAMECLASH", n, src, names=[nm], use=un, V=[0, 1, 2], K=10, T=2, cap=32))
+                n += 1
+    return out
+
+
 def names_triples(step=1):
     out = []
     n = 0
@@ -585,6 +629,17 @@ def w_list1():
         "arr = [10]\nwhile True:\n    h = arr[d0.Setting]\n    db.Setting = h + 1\n    yield_()\n",
     ]
     return [mk("W-F01f", i, s, V=[0, 0], K=6, T=2, cap=16) for i, s in enumerate(srcs)]
+
+
+def w_namedslotwrite():
+    """F-01l: a slot write to the batch devices of one name is emitted as a write to every device of the type (the name is dropped)."""
+    srcs = [
+        'ArcFurnaces["S"].slot0.Occupied = d0.Setting\n',
+        'ArcFurnaces["S"].Export.Quantity = 2\nArcFurnaces.slot1.Quantity = 3\n',
+        'nm = d0.Setting\nArcFurnaces[nm].Import.Occupied = 1\n',
+        'def f(a):\n    ArcFurnaces["S"].slot1.Occupied = a\nwhile True:\n    f(d0.Setting)\n    f(2)\n    yield_()\n',
+    ]
+    return [mk("W-F01l", i, s, V=[0, 1, 2, 3], K=6, T=2, cap=32) for i, s in enumerate(srcs)]
 
 
 def w_alias_lifetime():
@@ -930,6 +985,66 @@ def dead(tier="quick"):
                 n += 1
     return out
 
+
+
+# ----------------------------------------------------------------------------
+# DEADLIB: code that is dropped at compile time and mentions a library function (C07, C13, C01)
+
+def deadlib(tier="quick"):
+    lib = "def pulse(a):\n    db.On = a\n    d1.Setting = a + 1\ndef idle():\n    db.Mode = 7\ndef val(c):\n    db.Lock = c\n    return c * 2\n"
+    guards = {
+        "if0": ("", "if 0:\n{B}"), "ifFalse": ("", "if False:\n{B}"), "whileFalse": ("", "while False:\n{B}"), "constvar": ("K = 0\n", "if K:\n{B}"),
+        "ifnot1": ("", "if not 1:\n{B}"), "else": ("", "if 1:\n    db.Open = 2\nelse:\n{B}"),
+    }
+    deads = {"same": "pump.pulse(9)", "samearg": "pump.pulse(x)", "other": "pump.idle()", "val": "db.Setting = pump.val(3)", "two": "pump.pulse(1)\npump.pulse(2)"}
+    out = []
+    n = 0
+    merged_lib = lib.replace("def pulse", "def pump_pulse").replace("def idle", "def pump_idle").replace("def val", "def pump_val")
+
+    def mkd(fam, n, src, tag):
+        body = src.replace("from library import pump\n", "", 1)
+        return mk(fam, n, src, modules={"pump": lib}, ref_src=body, ref_modules={"pump": (lib, "pump")}, merged_src=merged_lib + body.replace("pump.", "pump_"), tag=tag, V=[0, 1, 2, 3], K=8, T=2, cap=64)
+
+    for gn, (pre, g) in guards.items():
+        for dn, dead_stmt in deads.items():
+            block = g.format(B=ind(dead_stmt))
+            head = "from library import pump\n" + pre
+            # (1) terminating main, the library function has one live call site: nothing may be left behind the main code
+            src = head + "x = d0.Setting\npump.pulse(x)\n" + block + "db.Open = 5\n"
+            # a call site that is dropped only after constant propagation still counts for the inlining decision: the function stays
+            # out of line and the terminating main falls through into it (finding F-07)
+            counted = gn in ("constvar", "else") and dn in ("same", "samearg", "two")
+            out.append(mkd("W-F07" if counted else "DEADLIB-TERM", n, src, f"term/{gn}/{dn}"))
+            # (2) endless main, one live call site
+            src = head + "while True:\n" + ind("x = d0.Setting\npump.pulse(x)\n" + block + "yield_()\n")
+            out.append(mkd("DEADLIB", n, src, f"loop1/{gn}/{dn}"))
+            # (3) endless main, two live call sites, dead block inside a main-file function
+            src = head + "def work(x):\n" + ind("pump.pulse(x)\n" + block + "db.Open = x\n") + "while True:\n    work(d0.Setting)\n    pump.pulse(4)\n    yield_()\n"
+            out.append(mkd("DEADLIB", n, src, f"loop2/{gn}/{dn}"))
+            n += 1
+    return out
+
+
+# ----------------------------------------------------------------------------
+# CALLARG: calls whose arguments are calls (argument slots / pushes of the outer call around the inner call) -- C02, C01, C04, C06
+
+def callarg(tier="quick"):
+    defs = "def inc(a):\n    db.On = a\n    return a + 1\ndef mix(p, q):\n    db.Mode = p\n    return p * 10 + q\ndef tri(p, q, u):\n    d1.Setting = q\n    return p * 100 + q * 10 + u\n"
+    exprs = [
+        "mix(x, inc(y))", "mix(inc(x), y)", "mix(inc(x), inc(y))", "mix(x, mix(y, x))", "mix(mix(x, y), x)", "mix(mix(x, 1), mix(2, y))", "mix(x + 1, inc(y) * 2)", "mix(inc(inc(x)), y)",
+        "tri(x, inc(y), 3)", "tri(x, y, inc(x))", "tri(inc(x), mix(y, x), inc(y))", "tri(x, mix(y, inc(x)), y)", "mix(x, inc(y)) + mix(y, inc(x))", "inc(mix(x, inc(y)))",
+    ]
+    out = []
+    n = 0
+    for e in exprs:
+        # every function is called from two sites at least (not inlined by default) ...
+        src = defs + "while True:\n    x = d0.Setting\n    y = d1.Setting\n    db.Setting = " + e + "\n    db.Lock = inc(1) + mix(2, 3) + tri(4, 5, 6)\n    yield_()\n"
+        out.append(mk("CALLARG", n, src, V=[0, 1, 2, 3], K=14, T=2, cap=64))
+        # ... and the same expression inside a function with parameters
+        src = defs + "def work(x, y):\n    db.Setting = " + e + "\n    return x\nwhile True:\n    db.Open = work(d0.Setting, d1.Setting)\n    db.Lock = inc(1) + mix(2, 3) + tri(4, 5, 6) + work(7, 8)\n    yield_()\n"
+        out.append(mk("CALLARG", n, src, V=[0, 1, 2, 3], K=14, T=2, cap=64))
+        n += 1
+    return out
 
 
 # ----------------------------------------------------------------------------
